@@ -122,3 +122,22 @@ func ref_ViaPtr(src *Src) *Dst {
 	}
 	return dst
 }
+
+func ref_ArgMapPtr(dst *Dst, src *Src) {
+	dst.ID = int64(src.ID)
+	dst.Name = src.Name
+	dst.Status = src.Status.String()
+	dst.Age = int64(src.Age)
+	dst.Code = string(src.Code)
+	dst.Ptr = src.Ptr
+	dst.Home.City = src.Home.City
+	dst.Home.Zip = int64(src.Home.Zip)
+	dst.Home.Geo = src.Geo // the pointer itself is the value: nil overwrites
+	dst.Work = src.Work
+	dst.Geo = src.Geo
+	dst.Ratio = src.Ratio
+	dst.OK = src.OK
+	if src.Work != nil {
+		dst.Keep = src.Work.City
+	}
+}
